@@ -30,7 +30,7 @@ ASSUMPTIONS = [
 ]
 TRUSTED = ["translator tools/gen/binfmt.py", "harness/h_codec.c + tools/lib/vf.py",
            "bv_decide axioms (one per generated obligation; LRAT certificate checked by compiled Lean code)"]
-DESIGN_REF = "DESIGN.md section 8, C15"
+DESIGN_REF = "DESIGN.md section 0.2 (as built) and section 8, C15"
 TECHNIQUE = "translation of binary-format.h to Lean bit-vector definitions regenerated on every run + per-function theorems (bv_decide) against the name-derived spec and an arithmetic spec; differential three-way correspondence"
 LEVEL_TEXT = ("Machine-checked proof over definitions regenerated from the source: each of the 111 functions of binary-format.h, in the little- "
               "and the big-endian host configuration, equals the codec its name promises (most/least significant octet first, sign extension, "
